@@ -1,70 +1,75 @@
 /-
-  C14 — exactly one highest-salience satisfied rule fires per cycle.
-  Decision logic of the salience scan (`pickRunner`, engine/GruleEngine.go) stated outright, for all
-  integer saliences and every iteration order; trace-level statements are in `Proofs/Trace.lean`
-  and re-exported here.
+  C14 — failures inside a condition or an action are contained and reported.
+  Primitive steps of the model return `ok v | error (eval _) | error (panic _)`; the boundaries
+  RuleEntry.Evaluate / RuleEntry.Execute turn both kinds of failure into an error value (the deferred
+  `recover`). `Outcome` has no constructor for an escaping panic: by construction nothing else can leave
+  `execute`; the harness checks the real engine for escaping panics.
 -/
-import GruleModel.Engine
+import GruleModel.Proofs.Side
 namespace Grule.C14
+open Grule
 
-/-- the runner is one of the candidates -/
-theorem C14_runner_is_candidate (r : RuleEntry) (rs : List RuleEntry) : pickRunner r rs ∈ r :: rs := by
-  induction rs generalizing r with
-  | nil => simp [pickRunner]
-  | cons p rest ih =>
-    unfold pickRunner
-    split
-    · have := ih p
-      simp only [List.mem_cons] at this ⊢
-      rcases this with h | h
-      · right; left; exact h
-      · right; right; exact h
-    · have := ih r
-      simp only [List.mem_cons] at this ⊢
-      rcases this with h | h
-      · left; exact h
-      · right; right; exact h
+/-- any failure of the condition — an error value or a panic, from a missing fact, nil pointer, index or
+    key out of range, kind mismatch, integer division by zero, failing user method — makes the rule
+    "failed", nothing more -/
+theorem C14_cond_failure_contained (c : Cfg) (v : Vis) (e : RuleEntry) (err : Err)
+    (hr : visRetracted v e = false) (hf : specE c v.st e.rule.cond = .error err) (hm : ∀ m, err ≠ .unmodelled m) :
+    specCond c v e = .failed := by
+  unfold specCond
+  cases err with
+  | eval m => simp only [hr, Bool.false_eq_true, if_false, hf]
+  | panic m => simp only [hr, Bool.false_eq_true, if_false, hf]
+  | unmodelled m => exact absurd rfl (hm m)
 
-/-- auxiliary: the scan never lowers the salience it holds -/
-theorem pickRunner_ge_start (r : RuleEntry) (rs : List RuleEntry) :
-    r.rule.salience ≤ (pickRunner r rs).rule.salience := by
-  induction rs generalizing r with
-  | nil => simp [pickRunner]
-  | cons p rest ih =>
-    unfold pickRunner
-    split
-    · rename_i h; exact Int.le_trans (Int.le_of_lt h) (ih p)
-    · exact ih r
+/-- by default the failing rule is reported as a non-candidate and the pass goes on with the next entry:
+    the other rules of the cycle are evaluated exactly as if this one had simply been false -/
+theorem C14_cond_failure_default {c : Cfg} (rc : RunCfg) (cyc : Nat) (e : RuleEntry) (rest acc : List RuleEntry) (ss : SState)
+    (hre : rc.retErr = false) (h1 : (specPoll rc ss).1 = false)
+    (h2 : (visRetracted (specPoll rc ss).2.vis e || e.deleted) = false)
+    (h3 : (specPoll rc (specPoll rc ss).2).1 = false)
+    (hf : specCond c (specPoll rc (specPoll rc ss).2).2.vis e = .failed) :
+    specPass rc c cyc (e :: rest) ss acc =
+      specPass rc c cyc rest ((specPoll rc (specPoll rc ss).2).2.emit (.eval cyc e.rule.name false)) acc := by
+  simp only [specPass, h1, h2, h3, hf, hre, Bool.false_eq_true, if_false]
 
-/-- the runner's salience is maximal among all candidates of the cycle (any `Int`, hence the whole
-    int32 range, negative and equal values included) -/
-theorem C14_max_salience (r : RuleEntry) (rs : List RuleEntry) :
-    ∀ p ∈ r :: rs, p.rule.salience ≤ (pickRunner r rs).rule.salience := by
-  induction rs generalizing r with
-  | nil => intro p hp; simp at hp; subst hp; simp [pickRunner]
-  | cons q rest ih =>
-    intro p hp
-    unfold pickRunner
-    split
-    · rename_i h
-      simp only [List.mem_cons] at hp
-      rcases hp with hp | hp | hp
-      · subst hp; exact Int.le_trans (Int.le_of_lt h) (pickRunner_ge_start q rest)
-      · subst hp; exact pickRunner_ge_start p rest
-      · exact ih q p (by simp [hp])
-    · rename_i h
-      simp only [List.mem_cons] at hp
-      rcases hp with hp | hp | hp
-      · subst hp; exact pickRunner_ge_start p rest
-      · subst hp; exact Int.le_trans (Int.not_lt.mp h) (pickRunner_ge_start r rest)
-      · exact ih r p (by simp [hp])
+/-- with ReturnErrOnFailedRuleEvaluation the run ends with an error naming the rule -/
+theorem C14_cond_failure_retErr {c : Cfg} (rc : RunCfg) (cyc : Nat) (e : RuleEntry) (rest acc : List RuleEntry) (ss : SState)
+    (hre : rc.retErr = true) (h1 : (specPoll rc ss).1 = false)
+    (h2 : (visRetracted (specPoll rc ss).2.vis e || e.deleted) = false)
+    (h3 : (specPoll rc (specPoll rc ss).2).1 = false)
+    (hf : specCond c (specPoll rc (specPoll rc ss).2).2.vis e = .failed) :
+    (specPass rc c cyc (e :: rest) ss acc).1 = some (.evalErr e.rule.name false) := by
+  simp only [specPass, h1, h2, h3, hf, hre, Bool.false_eq_true, if_false, if_true]
 
-/-- non-vacuity: three candidates with saliences 0, 5, 5 — the first maximal one (B) runs -/
-example :
-    let mk := fun (n : String) (s : Int) => ({ key := n, rule := { name := n, desc := "", salience := s, cond := default, acts := [] } } : RuleEntry)
-    (pickRunner (mk "A" 0) [mk "B" 5, mk "C" 5]).key = "B" := by decide
+/-- a failing action stops the list, keeps the effects of the completed actions and is what the run
+    reports: the reference loop returns `actionErr <rule>` with the facts as left by the completed actions,
+    and starts no further pass (`specLoop`, branch `(.error _, v')`); here: the action-list part -/
+theorem C14_action_failure (c : Cfg) (v : Vis) (pre : List Action) (a : Action) (post : List Action)
+    (v1 v2 : Vis) (u : Unit) (err : Err)
+    (hpre : specActions c v pre = (.ok u, v1)) (ha : specAction c v1 a = (.error err, v2)) :
+    specActions c v (pre ++ a :: post) = (.error err, v2) := by
+  induction pre generalizing v with
+  | nil =>
+    simp only [specActions] at hpre
+    cases hpre
+    simp only [List.nil_append, specActions, ha]
+  | cons b rest ih =>
+    simp only [specActions] at hpre
+    simp only [List.cons_append, specActions]
+    generalize specAction c v b = rb at hpre
+    obtain ⟨r, vb⟩ := rb
+    cases r with
+    | error e => simp only at hpre; cases hpre
+    | ok _ => simp only at hpre ⊢; exact ih vb hpre
+
+/-- a node whose evaluation failed is not remembered: it is evaluated again the next time it is needed -/
+theorem C14_failure_not_memoised (c : Cfg) (k : Snap) (e : Err) (s : EState) :
+    finishA c k (.error e, s) = (.error e, s) ∧ finishE c k (.error e, s) = (.error e, s) := ⟨rfl, rfl⟩
 
 end Grule.C14
 
-#print axioms Grule.C14.C14_runner_is_candidate
-#print axioms Grule.C14.C14_max_salience
+#print axioms Grule.C14.C14_cond_failure_contained
+#print axioms Grule.C14.C14_cond_failure_default
+#print axioms Grule.C14.C14_cond_failure_retErr
+#print axioms Grule.C14.C14_action_failure
+#print axioms Grule.C14.C14_failure_not_memoised
